@@ -1,6 +1,7 @@
 package checks
 
 import (
+	"errors"
 	"encoding/json"
 	"fmt"
 	"sort"
@@ -83,6 +84,46 @@ func textOf(v ref.Val) (string, bool) {
 // modelStep applies w to the pairs of a state. ok=false: evaluation is not
 // defined by the reference (the engine is expected to fail, writing nothing).
 // writes is the list of stated writes in order (puts: k,v ; removes: k).
+// mustFail: a key or value expression of a PUT / REMOVE divides by zero or
+// measures the distance of vectors of different lengths - evaluations that fail
+// by definition (everything else the reference leaves undefined stays unjudged).
+func mustFail(w *wstmt) string {
+	reason := func(err error) string {
+		var d *ref.ErrDomain
+		if errors.As(err, &d) && (d.Why == "division by zero" || d.Why == ref.RefusalDifferentLengths) {
+			return d.Why
+		}
+		return ""
+	}
+	switch w.Kind {
+	case "put":
+		for _, p := range w.Pairs {
+			kv, err := ref.Eval(p[0], &ref.Env{})
+			if err != nil {
+				if r := reason(err); r != "" {
+					return r
+				}
+				continue
+			}
+			k, _ := textOf(kv)
+			if _, err := ref.Eval(p[1], &ref.Env{Key: k}); err != nil {
+				if r := reason(err); r != "" {
+					return r
+				}
+			}
+		}
+	case "remove":
+		for _, ke := range w.Keys {
+			if _, err := ref.Eval(ke, &ref.Env{}); err != nil {
+				if r := reason(err); r != "" {
+					return r
+				}
+			}
+		}
+	}
+	return ""
+}
+
 func modelStep(w *wstmt, prior []store.Pair) (post []store.Pair, writes []store.Pair, ok bool) {
 	m := map[string]string{}
 	for _, p := range prior {
@@ -480,6 +521,11 @@ func judgeCycle(c, rep *wcase, res []pollResult, got string, st *store.MemStore)
 		return nil, "error:" + observed
 	}
 	if !ok {
+		if why := mustFail(c.Stmt); why != "" {
+			// all-or-nothing: an expression whose evaluation fails fails the
+			// statement, whatever would have become of its pair
+			return mk("failing-expression-ignored", "the statement fails ("+why+") and writes nothing", "completed without error: post-state "+got+" via "+logStr(muts)), observed
+		}
 		// the engine accepted what the reference does not define: out of domain
 		return nil, "out-of-domain"
 	}
